@@ -31,7 +31,13 @@ class Receiver:
                 self.send_response(200); self.send_header("content-type", "application/json"); self.send_header("content-length", str(len(ack))); self.end_headers()
                 self.wfile.write(ack)
             def log_message(self, *a): pass
-        self.srv = http.server.ThreadingHTTPServer(("127.0.0.1", 0), H)
+        class Srv(http.server.ThreadingHTTPServer):
+            # (the default listen backlog of 5 overflows when many events arrive at once: the dropped connection attempts are
+            # repeated by the kernel after 1 s and 3 s, beyond the gateway's 3 s delivery timeout - the event is then lost to the
+            # receiver, not withheld by the gateway)
+            request_queue_size = 1024
+            daemon_threads = True
+        self.srv = Srv(("127.0.0.1", 0), H)
         self.srv.daemon_threads = True
         self.port = self.srv.server_address[1]
         threading.Thread(target=self.srv.serve_forever, daemon=True).start()
